@@ -2,6 +2,7 @@
 import PflDrv.Json
 import Pfl.Model.Indexed
 import Pfl.Model.IndexedInter
+import Pfl.Model.IndexedMark
 import PflDrv.FST
 open Lean Pfl
 namespace PflDrv
@@ -41,6 +42,19 @@ def igHandle (op : String) (j : Json) : R Json := do
     let T ← asFST (← field j "T")
     let R := IG.inter T (fun (q : String) => q) G   -- states arrive as their Python repr
     pure (Json.mkObj [("rules", jList jIRule R.rules), ("isEmpty", jOpt jBool (R.isEmpty 10000))])
+  | "ig.libRun" =>    -- the library's own loop (Pfl/Model/IndexedMark.lean): verdict, initial and final table
+    pure (Json.mkObj [("isEmpty", jOpt jBool (IG.Lib.isEmptyLib G 10000)),
+      ("init", jList (jPair jStr (jList (jList jStr))) (IG.Lib.initTable G)),
+      ("final", jList (jPair jStr (jList (jList jStr))) (IG.Lib.finalTable G 10000))])
+  | "ig.libStep" =>   -- one call of _duplication_processing / _production_process on a given `marked`
+    let r ← asIRule (← field j "rule")
+    let tbl ← (← asArr (← field j "table")).mapM fun e => do
+      match ← asArr e with
+      | [k, v] => pure ((← asStr k), (← (← asArr v).mapM asStrList))
+      | _ => throw "bad table entry"
+    let res := IG.Lib.stepLib G r tbl
+    pure (Json.mkObj [("table", jList (jPair jStr (jList (jList jStr))) res.1),
+      ("modified", jBool res.2.1), ("stop", jBool res.2.2)])
   | "ig.removeUseless" => pure (jList jIRule G.removeUseless.rules)
   | _ => throw s!"unknown op {op}"
 
